@@ -6,6 +6,7 @@ mod genpair;
 mod jar;
 mod oracle;
 mod selfcheck;
+mod twostep;
 
 use cf::model::Class;
 use common::{par::*, report::{finish, Meta}, *};
@@ -242,23 +243,29 @@ fn main() {
 
     // every workload gets its own slice of the wall-clock budget, so that a loaded machine cannot starve the later ones
     let slice = |frac: f64| -> Ctx { let mut c = ctx.clone(); let left = ctx.budget.saturating_sub(ctx.start.elapsed()); c.start = std::time::Instant::now(); c.budget = left.min(ctx.budget.mul_f64(frac)); c };
-    run_cases(&slice(0.10), &replay, &mut rep, "headers", ctx.tier.pick(450, 4_500), header_case);
+    run_cases(&slice(0.08), &replay, &mut rep, "headers", ctx.tier.pick(450, 4_500), header_case);
+    // inputs that already carry side marks: every class arrives with Environment / EnvironmentInterfaces annotations of either side
+    let pre = PairCfg { classes: (2, 6), resources: (0, 1), differing_resources: false, simple_classes: true, list_max: 6, premark: 1 };
+    run_cases(&slice(0.12), &replay, &mut rep, "premarked", ctx.tier.pick(1_500, 25_000), |rng, rep, case| pair_case(rng, rep, case, "premarked", &pre, &scratch));
+    // the output of one merge as an input of the next, in either position
+    run_cases(&slice(0.15), &replay, &mut rep, "twostep", ctx.tier.pick(1_200, 20_000), twostep::twostep_case);
     // resources with different content on the two sides (kept small: the merger prints one warning line per such entry)
-    let res = PairCfg { classes: (0, 2), resources: (3, 8), differing_resources: true, simple_classes: true, list_max: 4 };
-    run_cases(&slice(0.05), &replay, &mut rep, "resources", ctx.tier.pick(100, 600), |rng, rep, case| pair_case(rng, rep, case, "resources", &res, &scratch));
+    let res = PairCfg { classes: (0, 2), resources: (3, 8), differing_resources: true, simple_classes: true, list_max: 4, premark: 0 };
+    run_cases(&slice(0.04), &replay, &mut rep, "resources", ctx.tier.pick(100, 600), |rng, rep, case| pair_case(rng, rep, case, "resources", &res, &scratch));
     // full jars: all entry kinds, all class categories, generated classes drawn from the whole format
-    let full = PairCfg { classes: (2, 9), resources: (0, 6), differing_resources: false, simple_classes: false, list_max: 7 };
-    run_cases(&slice(0.45), &replay, &mut rep, "pairs", ctx.tier.pick(3_500, 60_000), |rng, rep, case| pair_case(rng, rep, case, "pairs", &full, &scratch));
+    let full = PairCfg { classes: (2, 9), resources: (0, 6), differing_resources: false, simple_classes: false, list_max: 7, premark: 5 };
+    run_cases(&slice(0.50), &replay, &mut rep, "pairs", ctx.tier.pick(3_500, 60_000), |rng, rep, case| pair_case(rng, rep, case, "pairs", &full, &scratch));
     // member order: long, cheap member lists in every shape
-    let order = PairCfg { classes: (3, 8), resources: (0, 1), differing_resources: false, simple_classes: true, list_max: 12 };
+    let order = PairCfg { classes: (3, 8), resources: (0, 1), differing_resources: false, simple_classes: true, list_max: 12, premark: 5 };
     run_cases(&slice(1.0), &replay, &mut rep, "order", ctx.tier.pick(7_500, 150_000), |rng, rep, case| pair_case(rng, rep, case, "order", &order, &scratch));
     drop(scratch);
 
-    let mut meta = Meta::new("exploration", "seeded client/server jar pairs: 2-9 classes per pair, each client-only / server-only / identical / same facts in other bytes / differing (both sides derived from ONE generated model by keeping, dropping and reordering fields, methods and interfaces per side in 10 shapes: interleaving, prefix, suffix, middle, permutation, disjoint, shuffled, all shared, one-sided moved, two shared swapped), placed in net/minecraft, the root package or library-looking packages; resources one-sided / equal / different; directories; MANIFEST.MF; META-INF signature files (.SF .RSA .DSA .EC and look-alikes); jars handed over as NamedMemJar, UnnamedMemJar, ParsedJar, FileJar. A pair is non-trivial if it has a one-sided class or a class whose two sides differ in facts; distinct = distinct multiset of per-class shapes (category; per differing class the numbers of client-only/server-only/shared fields, methods, interfaces (capped at 3), order compatibility, server-only-before-shared)")
+    let mut meta = Meta::new("exploration", "seeded client/server jar pairs: 2-9 classes per pair, each client-only / server-only / identical / same facts in other bytes / differing (both sides derived from ONE generated model by keeping, dropping and reordering fields, methods and interfaces per side in 10 shapes: interleaving, prefix, suffix, middle, permutation, disjoint, shuffled, all shared, one-sided moved, two shared swapped), placed in net/minecraft, the root package or library-looking packages; resources one-sided / equal / different; directories; MANIFEST.MF; META-INF signature files (.SF .RSA .DSA .EC and look-alikes); jars handed over as NamedMemJar, UnnamedMemJar, ParsedJar, FileJar; 1 in 5 classes (workload `premarked`: every class) arrives already carrying Environment / EnvironmentInterfaces annotations (same side, other side, both; visible or invisible list); workload `twostep`: the output of one merge is the client or server input of a second merge whose partner jar is built from copies and variants of the first output. A pair is non-trivial if it has a one-sided class or a class whose two sides differ in facts; distinct = distinct multiset of per-class shapes (category; per differing class the numbers of client-only/server-only/shared fields, methods, interfaces (capped at 3), order compatibility, server-only-before-shared)")
         .assume("the independent parser and emitter (harness/cf) implement JVMS chapter 4 correctly; parse(emit(M)) == M is checked for every generated class")
         .assume("the zip crate reads and writes archives correctly (entry names are additionally taken from the harness' own scan of the central directory)")
         .assume("'bundled server library' = a class that only the server jar has, in a package other than net/minecraft and its sub-packages; 'signature file' = META-INF/*.SF and *.RSA (what the Minecraft jars carry and the ported Java JarMerger removes); *.DSA / *.EC blocks, nested or lower-case look-alikes and SIG-* are not judged (kept or removed, counted)")
         .assume("pairs whose class headers differ (version, flags, super class, Deprecated/Synthetic, InnerClasses conflict) are outside the statement: refusals are counted, successful merges are judged on members and interfaces, panics are recorded under their own signature")
+        .assume("elements that arrive marked: a one-sided element must carry a mark of its side of THIS merge and the merge may add nothing else; a shared element may not get a mark it did not arrive with; what happens to marks an element arrived with (kept, removed, duplicated) is counted, not judged")
         .assume("not judged: entry order, timestamps, MANIFEST.MF content, which side's version of a shared member or of a differing resource is taken, record components / permitted subclasses of differing classes, interface order");
     if replay.is_none() {
         let g = |k: &str| rep.get(k);
@@ -281,6 +288,15 @@ fn main() {
         meta.oblige("signature files (.SF and .RSA) present in inputs", ["SF", "RSA"].iter().all(|e| g(&format!("entries.signature.{e}")) > 0));
         meta.oblige("manifest, directories and resources on one side and on both (>= 10 each)", ["manifest", "directory", "resource"].iter().all(|k| g(&format!("entries.expected.{k}.in_both_jars")) >= 10 && g(&format!("entries.expected.{k}.client_only")) >= 10 && g(&format!("entries.expected.{k}.server_only")) >= 10));
         meta.oblige("resources with different content on the two sides (>= 20)", g("content.resource.differing.client_taken") + g("content.resource.differing.server_taken") >= 20 || rep.violations.keys().any(|k| k.contains("resource present on both sides")));
+        let pm = |tags: &[&str], what: &str| -> u64 { tags.iter().map(|t| g(&format!("premarked.one_sided_{t}.arrived_with_{what}"))).sum() };
+        meta.oblige("one-sided fields/methods that arrive marked: with the other side (>= 200), with their side (>= 200), with both (>= 50)", pm(&["field", "method"], "a_mark_of_the_other_side") >= 200 && pm(&["field", "method"], "a_mark_of_its_side") >= 200 && pm(&["field", "method"], "marks_of_both_sides") >= 50);
+        meta.oblige("one-sided classes that arrive marked: with the other side (>= 100), with their side (>= 100)", pm(&["class"], "a_mark_of_the_other_side") >= 100 && pm(&["class"], "a_mark_of_its_side") >= 100);
+        meta.oblige("one-sided interfaces that arrive marked: with the other side (>= 50), with their side (>= 50)", pm(&["interface"], "a_mark_of_the_other_side") >= 50 && pm(&["interface"], "a_mark_of_its_side") >= 50);
+        meta.oblige("shared fields/methods that arrive marked equally on both sides (>= 200) and on one side or differently (>= 100)",
+            g("premarked.shared_field.arrived_marked_equally_on_both_sides") + g("premarked.shared_method.arrived_marked_equally_on_both_sides") >= 200
+            && ["field", "method"].iter().map(|t| g(&format!("premarked.shared_{t}.arrived_marked_on_one_side")) + g(&format!("premarked.shared_{t}.arrived_marked_differently_on_the_two_sides"))).sum::<u64>() >= 100);
+        meta.oblige("marks of input elements in the visible and in the invisible annotation list (>= 500 each)", g("premarked.source_mark.visible") >= 500 && g("premarked.source_mark.invisible") >= 500);
+        meta.oblige("second merges with the merged jar as client (>= 60), as server (>= 60), handed over as the ParsedJar object (>= 30)", g("twostep.second_merges.merged_jar_as_client") >= 60 && g("twostep.second_merges.merged_jar_as_server") >= 60 && g("twostep.second_merges.merged_jar_handed_over_as_the_ParsedJar_object") >= 30);
         meta.oblige("every jar representation used", ["NamedMem", "UnnamedMem", "Parsed", "NamedAndParsed", "File"].iter().all(|k| g(&format!("jar_kind.{k}")) > 0));
         meta.oblige("every header aspect exercised", ASPECTS.iter().all(|a| { let k = a.replace(' ', "_"); g(&format!("headers.{k}.panic")) + g(&format!("headers.{k}.refused")) + g(&format!("headers.{k}.merged")) > 0 }));
         meta.oblige("control pairs of the header workload merge", g("headers.nothing_(control).merged") > 0);
